@@ -214,7 +214,7 @@ def run(ctx):
         "property_failures_on_impl": n_prop_bad,
         "distribution": {k: meta.get(k) for k in (
             "configs", "sessions", "exchanges", "refused", "forwarded", "exchanges_by_status", "exchanges_by_method",
-            "exchanges_by_credential_variant", "exchanges_by_host_variant", "exchanges_by_position_on_connection",
+            "exchanges_by_credential_variant", "exchanges_by_host_variant", "exchanges_by_position_on_connection", "exchanges_inside_mitm_by_status_and_refusing_check",
             "deny_matcher_hostnames_checked", "deny_matcher_hostname_differences", "hosts_file_aliases", "shard_case_counts")},
         "samples": [{"end_to_end": [dict(spec=s.get("spec"), req=s.get("req"),
                                          obs={k: s.get("obs", {}).get(k) for k in ("status", "dials", "from_peer")})
